@@ -67,6 +67,9 @@ def stream_loops(fn):
     return out
 
 
+YIELDERS = set()
+
+
 def disposition_paths(m, fn, loop):
     tgt = text(loop.target)
     item = A.Sym('ITEM', truthy=True, attrs={'distinct': True})
@@ -74,20 +77,28 @@ def disposition_paths(m, fn, loop):
     hk.lookup = lambda interp, name, state: None
     hk.should_inline = A.private_only
     it = A.Interp(model=m, scope=fn, hooks=hk, max_iter=1, exc_edges=False, inline=2)
-    it.h.keep = lambda ev: ev[0] in ('call', 'assume', 'continue', 'return')
+    it.h.keep = lambda ev: ev[0] in ('call', 'assume', 'continue', 'return', 'yield')
     st = A.State({tgt: item})
     outs = it.block(loop.body, [st])
     res = []
     stream = text(loop.iter)
     for kind in ('fall', 'continue', 'break', 'return'):
         for s, v in outs.get(kind, []):
-            app = push = 0
+            app = push = side = 0
             for ev in s.trace:
+                if ev[0] == 'yield' and ev[1] is item:
+                    app += 1           # handed to the loop that consumes this generator (which must place it: checked there)
+                    YIELDERS.add(fn.fullname)
                 if ev[0] == 'call' and item in ev[2]:
                     if re.search(r'\.(appendChild|append)$', ev[1]) and not ev[1].startswith(stream + '.'):
-                        app += 1
+                        if re.fullmatch(r'\w+\.append', ev[1]) and not ev[1].startswith('self.'):
+                            side += 1      # a plain list of the function (the result list, or a note of what was seen)
+                        else:
+                            app += 1
                     elif ev[1] in ('%s.push' % stream,):
                         push += 1
+            if push == 0:
+                app += side                # collected into the result list; next to a push-back it is only a note of the token
             assumed = [(e[1], e[2]) for e in s.trace if e[0] == 'assume']
             res.append((kind, app, push, assumed))
     return res
@@ -98,6 +109,7 @@ def r71(chk, m):
                  'appended once, or pushed back (and the loop left), or recognised as the end delimiter, or skipped as '
                  'whitespace - never dropped, never placed twice', 7)
     seen = 0
+    YIELDERS.clear()
     for fn in sorted(E.all_functions(m), key=lambda f: f.fullname):
         if 'simpletal' in fn.fullname or fn.fullname == 'plasTeX.TeX.TeX.parse':
             continue
@@ -140,6 +152,21 @@ def r71(chk, m):
             chk.verdict(R, key, not bad,
                         'a drawn token can be ' + '; '.join(sorted(set(bad))[:3]) + ' - text would be lost or duplicated',
                         chk.where(fn, loop), '%d path(s) linear' % len(paths))
+    # generators that hand the drawn tokens on: every loop that consumes one places each item exactly once
+    if YIELDERS:
+        from .c04 import resolved_calls
+        for fn in sorted(E.all_functions(m), key=lambda f: f.fullname):
+            if 'simpletal' in fn.fullname:
+                continue
+            gens = {id(c): cal for c, cal in resolved_calls(m, fn) if cal.fullname in YIELDERS}
+            for loop in [n for n in M.walk_no_nested(fn.node) if isinstance(n, ast.For) and id(n.iter) in gens]:
+                chk.analysed(fn)
+                paths = disposition_paths(m, fn, loop)
+                chk.paths += len(paths)
+                bad = ['%s with the item appended %d and pushed back %d time(s)' % (k, a, p) for k, a, p, _ in paths if not (k in ('fall', 'continue') and a == 1 and p == 0)]
+                chk.verdict(R, '%s :: for %s in %s' % (fn.fullname, text(loop.target), text(loop.iter)), not bad and bool(paths),
+                            'the loop over the token generator %s must append every item exactly once: %s' % (gens[id(loop.iter)].fullname, sorted(set(bad))[:3]),
+                            chk.where(fn, loop))
     # the build loop of TeX.parse (possibly in a private helper of it)
     from .c05 import reachable_private
     fn = m.func('plasTeX.TeX', 'TeX.parse')
@@ -306,7 +333,7 @@ def r73(chk, m):
         item = A.Sym('ITEM', truthy=True, attrs={'distinct': True, 'level': item_level, 'nodeType': 1 if element else 3,
                                                  'ELEMENT_NODE': 1})
         h = SelfHooks(m, fn.cls)
-        h.keep = lambda ev: ev[0] == 'call'
+        h.keep = lambda ev: ev[0] in ('call', 'yield')
         h.should_inline = A.private_only
         it = A.Interp(model=m, scope=fn, hooks=h, max_iter=1, exc_edges=False, inline=2)
         env = {text(loop.target): item, 'self.level': self_level}
@@ -315,10 +342,11 @@ def r73(chk, m):
         res = set()
         for kind in ('fall', 'continue', 'break', 'return'):
             for s, v in outs.get(kind, []):
-                app = sum(1 for ev in s.trace if item in ev[2] and re.search(r'self\.(appendChild|append)$', ev[1]))
-                push = sum(1 for ev in s.trace if item in ev[2] and ev[1] == '%s.push' % text(loop.iter))
+                app = sum(1 for ev in s.trace if ev[0] == 'call' and item in ev[2] and re.search(r'self\.(appendChild|append)$', ev[1]))
+                app += sum(1 for ev in s.trace if ev[0] == 'yield' and ev[1] is item)       # (a generator helper hands the item to the appending loop)
+                push = sum(1 for ev in s.trace if ev[0] == 'call' and item in ev[2] and ev[1] == '%s.push' % text(loop.iter))
                 res.add('absorb' if (app == 1 and push == 0 and kind in ('fall', 'continue')) else
-                        ('return' if (push == 1 and app == 0 and kind == 'break') else 'other(%s,%d,%d)' % (kind, app, push)))
+                        ('return' if (push == 1 and app == 0 and kind in ('break', 'return')) else 'other(%s,%d,%d)' % (kind, app, push)))
         return res
     chk.analysed(secfn)
     chk.analysed(envfn)
@@ -341,7 +369,7 @@ def r73(chk, m):
         got = run(envfn, lv['ENVIRONMENT_LEVEL'], lv[il])
         chk.paths += len(got)
         if want is None:
-            ok = 'absorb' in got and not any(g.startswith('other') and not g.startswith('other(break,0,0)') for g in got)
+            ok = 'absorb' in got and not any(g.startswith('other') and not g.startswith(('other(break,0,0)', 'other(return,0,0)')) for g in got)
             wtxt = 'absorb (or end/leave by context depth)'
         else:
             ok = got == want
